@@ -409,6 +409,24 @@ func (c *classEval) cond(st *ceState, e ast.Expr, want bool) (ivSet, bool) {
 					}
 				}
 			}
+			// S == T(U(S)) with U a narrower integer type: S lies in U's range
+			if v.Op == token.EQL || v.Op == token.NEQ {
+				for _, pr := range [][2]ast.Expr{{v.X, v.Y}, {v.Y, v.X}} {
+					if !c.isSym(st, pr[0]) || !c.isSym(st, pr[1]) {
+						continue
+					}
+					if lo, hi, ok := c.narrowRange(st, pr[1]); ok {
+						if _, _, also := c.narrowRange(st, pr[0]); also {
+							continue
+						}
+						t := ivIntersect(ivSet{{lo, hi}}, full)
+						if (v.Op == token.EQL) == want {
+							return t, true
+						}
+						return ivComplement(t, c.dom), true
+					}
+				}
+			}
 			op := v.Op
 			var k int64
 			var okc bool
@@ -432,6 +450,46 @@ func (c *classEval) cond(st *ceState, e ast.Expr, want bool) (ivSet, bool) {
 		}
 	}
 	return nil, false
+}
+
+// narrowRange: e is the class symbol wrapped in integer conversions of which at least one narrows a
+// signed 64-bit value to a signed N-bit type (N < 64): the range of that type. (The outer conversion
+// back to 64 bits sign-extends, so S == int64(intN(S)) holds exactly on that range.)
+func (c *classEval) narrowRange(st *ceState, e ast.Expr) (int64, int64, bool) {
+	bitsMin := 64
+	for i := 0; i < 10; i++ {
+		e = ast.Unparen(e)
+		if id, ok := e.(*ast.Ident); ok {
+			if sub, ok := st.env[c.info.ObjectOf(id)]; ok {
+				e = sub
+				continue
+			}
+			break
+		}
+		call, ok := e.(*ast.CallExpr)
+		if !ok || len(call.Args) != 1 {
+			break
+		}
+		tv, ok := c.info.Types[call.Fun]
+		if !ok || !tv.IsType() {
+			break
+		}
+		b, ok := tv.Type.Underlying().(*types.Basic)
+		if !ok || b.Info()&types.IsInteger == 0 {
+			break
+		}
+		if b.Info()&types.IsUnsigned != 0 {
+			return 0, 0, false
+		}
+		if w := typeBits(tv.Type); w < bitsMin {
+			bitsMin = w
+		}
+		e = call.Args[0]
+	}
+	if bitsMin >= 64 {
+		return 0, 0, false
+	}
+	return -(int64(1) << (bitsMin - 1)), (int64(1) << (bitsMin - 1)) - 1, true
 }
 
 func (c *classEval) constOfSub(st *ceState, e ast.Expr) (int64, bool) {
@@ -517,6 +575,58 @@ func (c *classEval) inlinable(st *ceState, call *ast.CallExpr) *core.FuncInfo {
 		return nil
 	}
 	return fi
+}
+
+// valueHelper: a package-level function of the same package, called with the class symbol and/or
+// constants only, whose body touches no stream and returns one integer: a classifier such as
+// decimalWidth(v).
+func (c *classEval) valueHelper(st *ceState, call *ast.CallExpr) *core.FuncInfo {
+	id, ok := ast.Unparen(call.Fun).(*ast.Ident)
+	if !ok {
+		return nil
+	}
+	fn, _ := c.info.Uses[id].(*types.Func)
+	if fn == nil || fn.Pkg() == nil {
+		return nil
+	}
+	sig := fn.Type().(*types.Signature)
+	if sig.Recv() != nil || sig.Results().Len() != 1 || sig.Variadic() {
+		return nil
+	}
+	if b, ok := sig.Results().At(0).Type().Underlying().(*types.Basic); !ok || b.Info()&types.IsInteger == 0 {
+		return nil
+	}
+	hf := c.p.FuncOf(fn)
+	if hf == nil || hf.Decl.Body == nil || hf.Pkg != c.fi.Pkg {
+		return nil
+	}
+	usesSym := false
+	for _, a := range call.Args {
+		if c.isSym(st, a) {
+			usesSym = true
+		} else if _, isC := c.constOfSub(st, a); !isC {
+			return nil
+		}
+	}
+	if !usesSym {
+		return nil
+	}
+	pure := true
+	ast.Inspect(hf.Decl.Body, func(n ast.Node) bool {
+		switch x := n.(type) {
+		case *ast.CallExpr:
+			if tv, ok := c.info.Types[x.Fun]; !ok || !tv.IsType() {
+				pure = false
+			}
+		case *ast.ForStmt, *ast.RangeStmt, *ast.GoStmt, *ast.DeferStmt, *ast.FuncLit:
+			pure = false
+		}
+		return pure
+	})
+	if !pure {
+		return nil
+	}
+	return hf
 }
 
 type ceRet func(st ceState, ret ast.Expr, pos token.Pos)
@@ -640,6 +750,34 @@ func (c *classEval) run(list []ast.Stmt, st ceState, k func(ceState), onRet ceRe
 				}
 			}
 		}
+		// x := classify(S): a package-level helper that looks at the class symbol only (no stream) is
+		// followed for the value it returns; the path keeps one statement `x := <what it returned>`
+		if len(v.Rhs) == 1 && len(v.Lhs) == 1 {
+			if call, ok := ast.Unparen(v.Rhs[0]).(*ast.CallExpr); ok {
+				if hf := c.valueHelper(&st, call); hf != nil {
+					lid, _ := v.Lhs[0].(*ast.Ident)
+					wasInl := st.inl
+					c.inline(st, hf, call, func(s2 ceState, ret ast.Expr, _ token.Pos) {
+						if ret == nil {
+							c.fail(call, "helper %s falls off its end", types.ExprString(call.Fun))
+							return
+						}
+						s2 = s2.fork()
+						s2.inl = wasInl
+						if lid != nil {
+							if obj := c.info.ObjectOf(lid); obj != nil {
+								s2.env[obj] = ret
+							}
+						}
+						if !wasInl {
+							s2.stmts = append(s2.stmts, &ast.AssignStmt{Lhs: v.Lhs, TokPos: v.TokPos, Tok: v.Tok, Rhs: []ast.Expr{ret}})
+						}
+						cont(s2)
+					})
+					return
+				}
+			}
+		}
 		st = st.fork()
 		for i := range v.Lhs {
 			c.reads(&st, v.Rhs[i])
@@ -718,6 +856,9 @@ func (c *classEval) run(list []ast.Stmt, st ceState, k func(ceState), onRet ceRe
 		st = st.fork()
 		for o := range assigned {
 			delete(st.env, o)
+		}
+		if !st.inl {
+			st.stmts = append(st.stmts, s) // the byte-level interpreter runs it (constant trip count)
 		}
 		cont(st)
 	case *ast.DeferStmt, *ast.GoStmt, *ast.IncDecStmt:
